@@ -440,7 +440,20 @@ def step_dict(ctx, g, h, sh, rng):
         at = set(x.attributes) | ({g.SymbolicExpression.Attribute.GOT} if attr else set())
         return g.SymAddrConst(x.offset + doff, x.symbol, at)
     item = None
-    if m == "set":
+    if m == "set" and k in s and rng.random() < 0.4:
+        # an EQUAL but distinct expression object stored at an occupied offset replaces the stored object (a dict keeps the new value)
+        old_e = d[k]
+        c = clone(old_e)
+        kk = w.expr_num[id(old_e)]
+        w.expr_num[id(c)] = kk
+        w.exprs[kk] = c
+        ctx.count("dict.set_equal_object")
+        def fi():
+            d[k] = c
+            if d[k] is not c or d.get(k) is not c or dict(d.items())[k] is not c:
+                raise AssertionError("the mapping still holds the previous (equal) object")
+        ri, rs = call(g, fi), ("ok", None)
+    elif m == "set":
         def fi(): d[k] = E(e)
         def fs(): s[k] = e
         ri, rs = call(g, fi), call(g, fs); item = [19, bi, k, e]
